@@ -270,7 +270,7 @@ func (e *executor) exec1(cmd string) error {
 		return nil
 	}
 	if m := aclCmdRE.FindStringSubmatch(cmd); m != nil {
-		no, name, lineS, body := m[1] != "", m[2], m[3], m[4]
+		no, name, lineS, body := m[1] != "", m[2], m[3], canonBody(m[4])
 		ls, exists := d.ACLs[name]
 		if no {
 			if lineS == "" {
@@ -422,4 +422,29 @@ func (d *asaDev) managedView(bindings []string, withRoutes bool) string {
 		sb.WriteString("[routes]\n " + strings.Join(r, "\n ") + "\n")
 	}
 	return sb.String()
+}
+
+// Spellings of one entry: the device stores (and this executor compares) the canonical one — protocol by
+// name, ports by number — whatever spelling a configuration text or a command uses (a real ASA prints
+// well-known ports by name, Netspoc writes numbers, a raw file may use protocol numbers).
+var portNames = map[string]string{"ssh": "22", "smtp": "25", "domain": "53", "www": "80", "https": "443"}
+var portNumbers = map[string]string{"22": "ssh", "25": "smtp", "53": "domain", "80": "www", "443": "https"}
+var protoNumbers = map[string]string{"6": "tcp", "17": "udp", "1": "icmp"}
+var protoByName = map[string]string{"tcp": "6", "udp": "17", "icmp": "1"}
+
+func canonBody(body string) string {
+	w := strings.Fields(body)
+	if len(w) > 1 {
+		if n, ok := protoNumbers[w[1]]; ok {
+			w[1] = n
+		}
+	}
+	for i := 2; i+1 < len(w); i++ {
+		if w[i] == "eq" {
+			if n, ok := portNames[w[i+1]]; ok {
+				w[i+1] = n
+			}
+		}
+	}
+	return strings.Join(w, " ")
 }
